@@ -317,6 +317,20 @@ pub fn parse_currency_non_commodity(input: &str) -> Result<String, ParseError> {
     Ok(currency)
 }
 
+/// Reject content that is not pure ASCII
+///
+/// The fixed-layout field parsers cut their input at byte offsets; a multi-byte
+/// character at such an offset would make the slice panic. SWIFT field content is
+/// ASCII, so anything else is a format error.
+pub fn ensure_ascii(input: &str, field_name: &str) -> Result<(), ParseError> {
+    if !input.is_ascii() {
+        return Err(ParseError::InvalidFormat {
+            message: format!("{} must contain only ASCII characters", field_name),
+        });
+    }
+    Ok(())
+}
+
 /// Parse amount with optional decimal places
 pub fn parse_amount(input: &str) -> Result<f64, ParseError> {
     // Digits and at most one decimal separator only: f64's own parser would also
